@@ -1045,16 +1045,19 @@ def judge_encrypt(cmd, payload):
     Fixed by the goldens: with the key blob's ADE and VLD bits set the data is padded with zeros to a multiple of 512
     and encrypted with the *selected* key blob's key and counter.  Left open (every variant is accepted): 8-byte group
     swapping (legacy default on, 'noByteSwap = 1' off; the document's 'byteSwap' says the opposite default), whether the
-    counter runs from the load address or from the key blob's start, and what happens when ADE/VLD are not both set.
+    counter runs from the load address or from the key blob's start.  With ADE/VLD not both set the data must stay plain
+    (hardware semantics of the context flags, the same rule C13 checks on the OTFAD classes).
     """
     kb, plain, address = cmd["keyblob"], cmd["plain"], cmd["address"]
     payload = bytes(payload)
     if (kb["end"] & (OTFAD_VLD | OTFAD_ADE)) != (OTFAD_VLD | OTFAD_ADE):
+        # the OTFAD engine passes the bytes of a context through unchanged unless it is valid (VLD) AND decryption is
+        # enabled (ADE): data stored for such a context is readable only if it is stored plain (optionally padded)
         if payload[:len(plain)] == plain and len(payload) <= (len(plain) + 511) // 512 * 512:
             return None
-        padded = plain + bytes(-len(plain) % 512)
-    else:
-        padded = plain + bytes(-len(plain) % 512)
+        return ("the key blob's end address has ADE/VLD not both set: the engine will not decrypt this context, the data has to "
+                "be stored as given")
+    padded = plain + bytes(-len(plain) % 512)
     if len(payload) != len(padded):
         return f"length {len(payload)}, expected {len(padded)} (data padded to 512)"
     if address % 16:
